@@ -143,9 +143,30 @@ def run(chk):
     chk.count('queued-before-stop', len(sl))
     for a, o in zip(sl, so):
         chk.nontrivial.add(hashlib.sha1(a.encode()).digest()[:8])
-        if not o.startswith('stopok alldecoded'):
-            chk.record('scopeA', dict(concrete=True, input=a, impl=o, expected='stopok alldecoded #n',
-                       what='Stop returned (or hung) although datagrams queued before it were not decoded'), {})
+        if not (o.startswith('stopok alldecoded') and o.endswith('restartok')):
+            chk.record('scopeA', dict(concrete=True, input=a, impl=o, expected='stopok alldecoded #n restartok',
+                       what='Stop returned (or hung) although datagrams queued before it were not decoded, or the receiver could not be started again'), {})
+    # the same in BLOCKING mode with a queue of 0 / 1 / 8 and several sockets: every worker is held inside its decoder and
+    # every reader stands with a datagram it cannot hand over when Stop is called. Stop must return once the decoders are
+    # released; what was QUEUED is decoded (a datagram still in a reader's hand was never queued: at most one per socket may
+    # be missing); the receiver starts and stops again
+    bl = []
+    for _ in range(dict(quick=16, thorough=120)[chk.tier]):
+        sockets = rng.choice([1, 2, 4])
+        bl.append('udpstop #%x #%x #%x #%x #1' % (rng.choice([1, 2, 4]), rng.choice([0, 0, 1, 8]), rng.choice([64, 200]), sockets))
+    bo = impl_run(chk.harness, bl, timeout=120.0, limit_mem=False)
+    chk.evals += len(bl)
+    chk.count('blocking: held decoders, readers waiting to hand over, then Stop', len(bl))
+    for a, o in zip(bl, bo):
+        chk.nontrivial.add(hashlib.sha1(a.encode()).digest()[:8])
+        f = o.split(' ')
+        sockets = int(a.split(' ')[4][1:], 16)
+        ok = len(f) >= 4 and f[0] == 'stopok' and f[-1] == 'restartok' and \
+            (f[1] == 'alldecoded' or (f[1].startswith('LOST') and f[1][4:].isdigit() and int(f[1][4:]) <= sockets))
+        if not ok:
+            chk.record('scopeA', dict(concrete=True, input=a, impl=o, expected='stopok alldecoded|LOST<=sockets #n restartok',
+                       what='blocking receiver with held decoders and waiting readers: Stop hung, lost queued datagrams, or the receiver could not be started again'), {})
+    chk.samples.append(dict(stream='udpstop-blocking', input=bl[0], impl=bo[0]))
     chk.samples.append(dict(stream='udpstop', input=sl[0], impl=so[0]))
     # end to end
     r = end_to_end(chk, dict(quick=200, thorough=2000)[chk.tier])
